@@ -409,14 +409,8 @@ def do_replay(mod, path, tier, verbose=True):
     return 0 if res.get("verdict") == "ok" else 2
 
 
-def do_batch(mod, tier, seed, budget, workers, t0):
-    prop = mod.PROPERTY
-    cfg = dict(mod.config(tier))
-    if budget:
-        cfg["budget_s"] = float(budget)
-    nworkers = workers or cfg.get("workers") or NWORKERS
-    deadline = t0 + cfg.get("budget_s", 60.0)
-    base = os.environ["VERIF_SCRATCH_BASE"]
+def _worker_batch(mod, tier, seed, cfg, deadline, base, nworkers):
+    """In-process checks: N workers, each executing its share of runs in fresh threads."""
     pids = []
     outs = []
     for w in range(nworkers):
@@ -445,6 +439,144 @@ def do_batch(mod, tier, seed, budget, workers, t0):
                 agg.merge(json.load(f))
         except (OSError, ValueError):
             worker_fail += 1
+    return agg, worker_fail
+
+
+def _forkserver_batch(mod, tier, seed, cfg, deadline, base, nworkers):
+    """Fork-isolated checks: THIS process (warmed, otherwise idle) forks one child per
+    run and does nothing else until the batch is over, so every run child - in the batch,
+    in the determinism re-run and in a later replay from a fresh interpreter - starts from
+    the same heap layout (some orders inside the Rust extensions depend on addresses)."""
+    prop = mod.PROPERTY
+    max_runs = cfg.get("max_runs", 10**9)
+    timeout = cfg.get("run_timeout", 60.0)
+    nself = cfg.get("selftest", 16)
+    # Fixed, pre-allocated bookkeeping: the loop below must leave this process's heap in
+    # the same state at every fork (no growing containers, no retained temporaries).
+    slot_pid = [0] * nworkers
+    slot_kind = [0] * nworkers  # 0 run, 1 recheck
+    slot_idx = [0] * nworkers
+    slot_t0 = [0.0] * nworkers
+    timed_out = [None] * 4096
+    n_timed_out = 0
+    nxt = 0
+    nrecheck = 0
+    durations = 0.0
+    ndone = 0
+    nrunning = 0
+    while True:
+        now = time.time()
+        # reap
+        while nrunning:
+            try:
+                pid, st = os.waitpid(-1, os.WNOHANG)
+            except ChildProcessError:
+                nrunning = 0
+                break
+            if pid == 0:
+                break
+            for k in range(nworkers):
+                if slot_pid[k] == pid:
+                    durations += now - slot_t0[k]
+                    ndone += 1
+                    slot_pid[k] = 0
+                    nrunning -= 1
+                    try:
+                        os.killpg(pid, signal.SIGKILL)
+                    except (ProcessLookupError, PermissionError):
+                        pass
+                    break
+        for k in range(nworkers):
+            if slot_pid[k] and now - slot_t0[k] > timeout:
+                try:
+                    os.killpg(slot_pid[k], signal.SIGKILL)
+                except ProcessLookupError:
+                    pass
+                try:
+                    os.waitpid(slot_pid[k], 0)
+                except ChildProcessError:
+                    pass
+                if n_timed_out < len(timed_out):
+                    timed_out[n_timed_out] = (slot_kind[k], slot_idx[k])
+                    n_timed_out += 1
+                slot_pid[k] = 0
+                nrunning -= 1
+        est = durations / ndone if ndone else 0.0
+        may_start = now + 0.6 * est < deadline and nxt < max_runs
+        if may_start and nrunning < nworkers:
+            if nxt >= nself and nrecheck < nself:
+                kind, idx = 1, nrecheck
+                nrecheck += 1
+            else:
+                kind, idx = 0, nxt
+                nxt += 1
+            pid = os.fork()
+            if pid == 0:
+                code = 0
+                try:
+                    os.setpgid(0, 0)
+                    kname = "recheck" if kind else "run"
+                    res = run_body(mod, derive_seed(seed, prop, idx), None, tier, want_plan=(idx < 3 and kind == 0))
+                    tmp = os.path.join(base, f"res-{kname}-{idx}.tmp")
+                    with open(tmp, "w") as f:
+                        json.dump(res, f, default=_jsonable)
+                    os.replace(tmp, os.path.join(base, f"res-{kname}-{idx}.json"))
+                except BaseException:  # noqa: B036
+                    code = 3
+                    try:
+                        traceback.print_exc()
+                    except Exception:
+                        pass
+                finally:
+                    os._exit(code)
+            for k in range(nworkers):
+                if slot_pid[k] == 0:
+                    slot_pid[k] = pid
+                    slot_kind[k] = kind
+                    slot_idx[k] = idx
+                    slot_t0[k] = now
+                    nrunning += 1
+                    break
+            continue
+        if not nrunning:
+            break
+        time.sleep(0.004)
+    harness_fail = 0
+    timed_out = [("recheck" if t[0] else "run", t[1]) for t in timed_out[:n_timed_out]]
+    # the batch is over: now this process may allocate freely
+    agg = Agg()
+    import glob
+
+    for path in sorted(glob.glob(os.path.join(base, "res-*.json"))):
+        name = os.path.basename(path)[4:-5]
+        kind, idx = name.rsplit("-", 1)
+        try:
+            with open(path) as f:
+                res = json.load(f)
+        except (OSError, ValueError):
+            harness_fail += 1
+            continue
+        agg.add(int(idx), res, recheck=(kind == "recheck"))
+    for kind, idx in timed_out:
+        if kind == "run":
+            agg.add(idx, {"run_seed": derive_seed(seed, prop, idx), "verdict": "timeout", "detail": f"run exceeded {timeout}s"})
+    for d in glob.glob(os.path.join(base, "r*-*-*")):
+        shutil.rmtree(d, ignore_errors=True)
+    return agg, 0
+
+
+def do_batch(mod, tier, seed, budget, workers, t0):
+    prop = mod.PROPERTY
+    cfg = dict(mod.config(tier))
+    if budget:
+        cfg["budget_s"] = float(budget)
+    nworkers = workers or cfg.get("workers") or NWORKERS
+    deadline = t0 + cfg.get("budget_s", 60.0)
+    base = os.environ["VERIF_SCRATCH_BASE"]
+    if getattr(mod, "ISOLATION", "fork") == "thread":
+        agg, worker_fail = _worker_batch(mod, tier, seed, cfg, deadline, base, nworkers)
+    else:
+        agg, worker_fail = _forkserver_batch(mod, tier, seed, cfg, deadline, base, nworkers)
     batch_wall = time.time() - t0
 
     # determinism
